@@ -71,7 +71,9 @@ class Machine(RuleBasedStateMachine):
         m = data.draw(S.trees(NAMES, depth=2, const_bias=2))
         self._apply({"op": "add", "node": self.w.encode(m)})
 
-    @precondition(lambda self: len(self.w.models) < 8)
+    MAX_POOL = 8
+
+    @precondition(lambda self: len(self.w.models) < self.MAX_POOL)
     @rule(data=st.data())
     def add(self, data):
         pool = list(self.w.models)
@@ -163,6 +165,15 @@ class Machine(RuleBasedStateMachine):
         js = [j for j, r in enumerate(self.w.derivs) if r["kind"] == "Differential"]
         self._apply({"op": "deriv_component", "j": data.draw(st.sampled_from(js)), "point": p})
 
+    @precondition(lambda self: any(d["op"] not in ("add", "make_deriv", "point_mutation") for d in self.w.history))
+    @rule(data=st.data())
+    def repeat_earlier(self, data):
+        """'fail half-way, then retry': re-issue an earlier query exactly (most often the last one)."""
+        qs = [d for d in self.w.history if d["op"] not in ("add", "make_deriv", "point_mutation")]
+        d = qs[-1] if data.draw(st.integers(0, 2)) else data.draw(st.sampled_from(qs))
+        self.w.features.add("repeated-query")
+        self._apply(dict(d))
+
     def teardown(self):
         st_ = self.stats
         if st_ is None:
@@ -188,10 +199,35 @@ def make_machine(stats):
     return C09Machine
 
 
+def make_soak(stats):
+    """Few objects, very many operations on them (400 steps): state that only goes wrong after it has been touched
+    hundreds of times (counters, budgets, growing caches)."""
+    class C09Soak(Machine):
+        MAX_POOL = 3
+
+        def __init__(self):
+            super().__init__()
+            self.w.adopt_results = False       # stay on the same few objects
+
+        @rule(data=st.data(), var=st.sampled_from(NAMES), route=st.sampled_from(["Partial", "Partial", "Differential", "early"]),
+              k=st.sampled_from([50, 150, 400]))
+        def burst(self, data, var, route, k):
+            """the same simplification over and over on the same operand (fresh wrapper objects each time)"""
+            i = self._idx(data)
+            for _ in range(k):
+                if route == "early":
+                    self._apply({"op": "partial_at", "i": i, "point": H.enc_point({n: 1.5 for n in NAMES}), "var": var, "early": True})
+                else:
+                    self._apply({"op": "as_expression", "i": i, "var": var, "early": False, "route": route})
+    C09Soak.stats = stats
+    return C09Soak
+
+
 def parts(tier):
     n = 1500 if tier == "quick" else 30000
     return [machine_part("histories", make_machine, n, steps=30),
-            machine_part("long-histories", make_machine, max(16, n // 10), steps=80)]
+            machine_part("long-histories", make_machine, max(16, n // 10), steps=80),
+            machine_part("soak", make_soak, 48 if tier == "quick" else 480, steps=250)]
 
 
 def replay(case):
